@@ -1156,7 +1156,7 @@ FIXED_CASES = [
 def gen_cases(ctx):
     g = Gen(ctx.rng)
     cases = []
-    n = ctx.budget(4860, 30000)
+    n = ctx.budget(5400, 30000)
     triples = [(a, b, c) for a in COMPR for b in COMPR for c in COMPR]
     for i in range(n):
         t = triples[i % 27]
